@@ -477,6 +477,15 @@ func (m *machine) ensureInit(p *ssa.Package) {
 		m.callBody(initFn, nil, nil)
 	}()
 	m.logging, m.inInit, m.steps, m.depth, m.stack = savedLogging, savedInit, savedSteps, savedDepth, savedStack
+	// a package initialised lazily in the middle of a path: its variables (and everything reachable from
+	// them) are package-level memory all the same - the glob.write check must see writes to them
+	if m.preexist != nil && m.eng.inModule(p.Pkg.Path()) {
+		for g, cell := range m.globals {
+			if g.Pkg == p {
+				m.markCell(cell)
+			}
+		}
+	}
 }
 
 // ---- exploration driver
@@ -744,8 +753,12 @@ func (e *engine) samplesPerWorker() int {
 func (m *machine) markPreexisting() {
 	m.preexist = map[*value]bool{}
 	m.preMaps = map[*amap]bool{}
-	for _, p := range m.globals {
-		m.markCell(p)
+	// package-level variables of the repository only: the standard library's own lazily filled tables
+	// (sync.Once initialisers, caches) are not the property's concern and would be false alarms
+	for g, p := range m.globals {
+		if g.Pkg != nil && m.eng.inModule(g.Pkg.Pkg.Path()) {
+			m.markCell(p)
+		}
 	}
 }
 
